@@ -700,6 +700,17 @@ func (r *Runtime) typedArrayProto_forEach(call FunctionCall) Value {
 	panic(r.NewTypeError("Method TypedArray.prototype.forEach called on incompatible receiver %s", r.objectproto_toString(FunctionCall{This: call.This})))
 }
 
+// isFloatTypedArray reports whether elements are IEEE floats: for those the search methods must compare
+// Number values (0.1 is not in a Float32Array holding fround(0.1), -0 equals +0, NaN payloads do not
+// matter), not the raw bits of the search value converted to the element type.
+func isFloatTypedArray(a typedArray) bool {
+	switch a.(type) {
+	case *float32Array, *float64Array:
+		return true
+	}
+	return false
+}
+
 func (r *Runtime) typedArrayProto_includes(call FunctionCall) Value {
 	if ta, ok := r.toObject(call.This).self.(*typedArrayObject); ok {
 		ta.viewedArrayBuf.ensureNotDetached(true)
@@ -725,6 +736,18 @@ func (r *Runtime) typedArrayProto_includes(call FunctionCall) Value {
 		if !ta.viewedArrayBuf.ensureNotDetached(false) {
 			if searchElement == _undefined && startIdx < ta.length {
 				return valueTrue
+			}
+			return valueFalse
+		}
+		if isFloatTypedArray(ta.typedArray) {
+			for k := startIdx; k < ta.length; k++ {
+				v := ta.typedArray.get(ta.offset + k)
+				if v == _negativeZero {
+					v = _positiveZero
+				}
+				if searchElement.SameAs(v) {
+					return valueTrue
+				}
 			}
 			return valueFalse
 		}
@@ -782,7 +805,13 @@ func (r *Runtime) typedArrayProto_indexOf(call FunctionCall) Value {
 			if searchElement == _negativeZero {
 				searchElement = _positiveZero
 			}
-			if !IsNaN(searchElement) && ta.typedArray.typeMatch(searchElement) {
+			if isFloatTypedArray(ta.typedArray) {
+				for k := toIntStrict(n); k < ta.length; k++ {
+					if searchElement.StrictEquals(ta.typedArray.get(ta.offset + k)) {
+						return intToValue(int64(k))
+					}
+				}
+			} else if !IsNaN(searchElement) && ta.typedArray.typeMatch(searchElement) {
 				se := ta.typedArray.toRaw(searchElement)
 				for k := toIntStrict(n); k < ta.length; k++ {
 					if ta.typedArray.getRaw(ta.offset+k) == se {
@@ -873,7 +902,13 @@ func (r *Runtime) typedArrayProto_lastIndexOf(call FunctionCall) Value {
 			if searchElement == _negativeZero {
 				searchElement = _positiveZero
 			}
-			if !IsNaN(searchElement) && ta.typedArray.typeMatch(searchElement) {
+			if isFloatTypedArray(ta.typedArray) {
+				for k := toIntStrict(fromIndex); k >= 0; k-- {
+					if searchElement.StrictEquals(ta.typedArray.get(ta.offset + k)) {
+						return intToValue(int64(k))
+					}
+				}
+			} else if !IsNaN(searchElement) && ta.typedArray.typeMatch(searchElement) {
 				se := ta.typedArray.toRaw(searchElement)
 				for k := toIntStrict(fromIndex); k >= 0; k-- {
 					if ta.typedArray.getRaw(ta.offset+k) == se {
